@@ -13,7 +13,7 @@ CONSTANTS
  RespTimeouts = {0}
  MaxConns = 2
  MaxHeld = 1
- MaxUsed = 1
+ MaxUsed = 2
  AppKinds = {"publish"}
  PeerKinds = {"puback"}
  QosSet = {0, 1}
